@@ -1692,6 +1692,9 @@ func (m *Mon) stepC20(sc *StepCtx, si stepInfo) {
 	m.eval("C20")
 	cls := stepClass(sc)
 	m.hit("C20", "no-panic", cls+okStr(sc.Res))
+	if sc.Step.Kind == "sim" {
+		cls = sc.Step.MsgType // a handler panic is the same defect whether the message is simulated or delivered
+	}
 	if sc.Res.Panic != "" {
 		class := strings.SplitN(sc.Res.Panic, ":", 2)[0]
 		m.fail(sc, "C20", "panic", fmt.Sprintf("%s@%s:%s", cls, sc.Res.PanicSite, class), "%s panicked: %s (first module frame %s)", sc.Step.Desc, sc.Res.Panic, sc.Res.PanicSite)
